@@ -522,7 +522,7 @@ fn binding(res: &mut SubResult, dir: &Path, cs: &[Case]) {
 
 pub fn replay(v: &serde_json::Value) -> i32 {
     // re-run the whole (fast) sub-check and look for the same key
-    let args = Args { subcheck: "c12_watcher".into(), tier: "quick".into(), seed: 0, out: None, worker: None, replay: None, jobs: 1, only_case: None, rest: vec!["--no-binding".into()] };
+    let args = Args { subcheck: "c12_watcher".into(), tier: "quick".into(), seed: 0, out: None, worker: None, replay: None, jobs: 1, only_case: None, resume_from: 0, part: 0, rest: vec!["--no-binding".into()] };
     let res = run(&args);
     let key = v["key"].as_str().unwrap_or("");
     for viol in &res.violations {
